@@ -106,6 +106,42 @@ static void check_gate(World &w, int g, int va, int vb, int vc, int ca, int cb, 
     delete_gate_bootstrapping_ciphertext(r); delete_gate_bootstrapping_ciphertext(c); delete_gate_bootstrapping_ciphertext(b); delete_gate_bootstrapping_ciphertext(a);
 }
 
+// structured masks: admissible inputs whose masks are correlated so that the linear combination formed inside the gate has the same
+// multiple of 1/2N in every coefficient (-1/2N, +1/2N, 1/2, 1/2 - 1/2N, ... : every blind-rotation exponent equal to 2N-1, 1, N, N-1).
+// Each input alone is an ordinary ciphertext (its phase is set with the secret key, exact or pushed to +-1/32); a rotation amount
+// that is mishandled by one position per coefficient, harmless singly, adds up over the whole key here.
+static void check_structured_masks(World &w) {
+    const int n = w.params->in_out_params->n, N2 = 2 * w.params->tgsw_params->tlwe_params->N;
+    const uint32_t width = (uint32_t) (4294967296.0 / N2);
+    LweSample *x = new_gate_bootstrapping_ciphertext_array(4, w.params);
+    const int targets[] = {N2 - 1, 1, N2 / 2, N2 / 2 - 1, N2 / 2 + 1, 2, N2 - 2, 0};
+    for (int ti = 0; ti < 8; ti++) for (int g = 0; g <= G_MUX; g++) for (int v = 0; v < 8; v++) for (int e = 0; e < 2; e++) {
+        if (GATES[g].arity < 3 && (v & 4)) continue;
+        if (ti >= 2 && e != (ti & 1)) continue;       // the two targets next to 0 with and without phase errors, the others alternately
+        int bits[3] = {v & 1, (v >> 1) & 1, (v >> 2) & 1};
+        for (int i = 0; i < 3; i++) bootsSymEncrypt(x + i, bits[i], w.sk);
+        // second (and third) operand: masks that are random multiples of the interval width; first operand: whatever makes
+        // ca*A + cb*B equal to the target multiple in every coefficient (for MUX: a + b = target and -a + c = -target ... both structured)
+        int ca = g == G_MUX ? 1 : GATES[g].ca, cb = g == G_MUX ? 1 : GATES[g].cb;
+        for (int i = 0; i < n; i++) {
+            uint32_t B = (uint32_t) rng.below(N2) * width; if (ca == 2 || ca == -2) B &= ~(2 * width - 1) | 0;   // keep (target - cb B) divisible by |ca| in units of width/2
+            uint32_t T = (uint32_t) targets[ti] * width;
+            uint32_t rest = T - (uint32_t) cb * B;                      // = ca * A
+            uint32_t A = ca == 1 ? rest : ca == -1 ? 0u - rest : ca == 2 ? rest / 2 : (0u - rest) / 2;
+            x[0].a[i] = (int32_t) A; x[1].a[i] = (int32_t) B; x[2].a[i] = g == G_MUX ? (int32_t) (A - T - T) : (int32_t) ((uint32_t) rng.below(N2) * width);
+        }
+        for (int i = 0; i < 3; i++) inject_phase(x + i, bits[i], e ? (rng.coin() ? 1 : -1) * (E32 - 1 - (int64_t) rng.below(1000)) : rng.range(-1000, 1000), w.sk);
+        VH_OP("boots%s:%s:structured-masks:target=%d", GATES[g].name, w.cfg.c_str(), targets[ti]);
+        gate_eval(g, x + 3, x, x + 1, x + 2, bits[0], w.ck);
+        out.evaluations++;
+        if (bootsSymDecrypt(x + 3, w.sk) != gate_truth(g, bits[0], bits[1], bits[2]))
+            out.viol(std::string("gate:wrong-output:") + GATES[g].name, J().s("gate", GATES[g].name).s("config", w.cfg).i("a", bits[0]).i("b", bits[1]).i("c", bits[2]).s("class_a", "structured masks").i("every_exponent_of_the_combination", targets[ti]).s("phase_errors", e ? "+-1/32" : "none")
+                    .d("phase_out", (double) (int32_t) sk_phase(x + 3, w.sk) / 4294967296.0));
+    }
+    char cell[128]; snprintf(cell, sizeof cell, "%s:structured-masks(all exponents equal: 2N-1,1,N,N-1,N+1,2,2N-2,0)", w.cfg.c_str()); out.cell(cell, 8 * 11);
+    delete_gate_bootstrapping_ciphertext_array(4, x);
+}
+
 // the same ciphertext object in two (or three) operand roles: gate(r, a, a), MUX(r, a, a, c), MUX(r, a, b, a), MUX(r, a, b, b),
 // MUX(r, a, a, a). Operands are inputs only, so sharing one object between them is ordinary use.
 static void check_shared_operands(World &w, int cls) {
@@ -181,6 +217,7 @@ int main(int argc, char **argv) {
     }
     for (int v = 0; v < 8; v++) for (auto &t: triples) check_gate(w, G_MUX, v & 1, (v >> 1) & 1, (v >> 2) & 1, t[0], t[1], t[2]);
     for (int cls: {FRESH, BOOT, CONST, INJ_P, INJ_M}) { if (level == "lite" && cls != FRESH && cls != INJ_M) continue; check_shared_operands(w, cls); }
+    if (level != "lite" || lambda > 80) check_structured_masks(w);
     // NOT / COPY / CONSTANT
     for (int va = 0; va < 2; va++) for (int cls = 0; cls < NCLASS; cls++) { check_gate(w, G_NOT, va, 0, 0, cls, FRESH, FRESH); check_gate(w, G_COPY, va, 0, 0, cls, FRESH, FRESH); }
     check_gate(w, G_CONSTANT, 0, 0, 0, CONST, FRESH, FRESH); check_gate(w, G_CONSTANT, 1, 0, 0, CONST, FRESH, FRESH);
